@@ -228,7 +228,7 @@ def mk_variant(rng, op, m, n, what):
 
 
 def mk_zero(rng, op, m, n):
-    """the all-zero frame: jitter / smear divide 0 by 0 (model: undefined), pixel returns zeros"""
+    """the all-zero frame is a non-negative image: every blur returns the all-zero frame (fix a520356)"""
     c = mk_case(rng, op, m, n, 'quick', 0, kind='background', variants=False)
     c['img'] = [[0] * n for _ in range(m)]
     c['kind'] = 'zero'
@@ -525,7 +525,7 @@ _BIN = []
 
 
 def model_renorm(absd, img):
-    """second model stage: out * sum(img) / sum(out) on the rationals, as executed: None when sum(out) = 0 (0/0)"""
+    """second model stage: out * sum(img) / sum(out) on the rationals, as executed (out itself when sum(out) = 0)"""
     if not _BIN:
         _BIN.append(C.build_model(MODEL))
     import subprocess
@@ -537,8 +537,6 @@ def model_renorm(absd, img):
     rd = C.Reader(res, 1)
     if rd.z() != 0:
         raise ValueError('renorm stage rejected its input')
-    if rd.z() == 0:
-        return None                      # the model's all-NaN frame
     return [[float(v) for v in row] for row in rd.arr(rd.q)]
 
 
@@ -557,8 +555,7 @@ def decode(c, ints):
     absd = np.abs(pre)                      # np.abs: applied here, between the two model stages
     if c['op'] == 'pixel':
         return {'out': absd.tolist()}
-    out = model_renorm(absd, get_img(c))
-    return {'undefined': True} if out is None else {'out': out}
+    return {'out': model_renorm(absd, get_img(c))}
 
 
 # ------------------------------------------------------------------ implementation side
@@ -778,11 +775,6 @@ def compare(c, impl, model):
         return f'implementation {impl.get("err", "returned a value")}, model {model.get("err", "returned a value")}'
     if 'err' in impl:
         return None
-    if model.get('undefined'):
-        o = np.asarray(impl['out'], dtype=float)
-        if o.shape == shape_of(c) and np.all(np.isnan(o)):
-            return None
-        return f'{c["op"]}: the model divides 0 by 0 (all-NaN frame), the implementation returned numbers'
     msg = arr_close(impl['out'], model['out'])
     return f'{c["op"]}: {msg}' if msg else None
 
@@ -863,7 +855,7 @@ def check_out(c, impl):
     nyq /= (m * n)
     if np.min(cc.real) >= 0:
         tot = float(np.sum(img))
-        bound = nyq * (1 + m * n * float(np.max(np.abs(cc))) / tot) if c['op'] != 'pixel' else nyq
+        bound = nyq * (1 + m * n * float(np.max(np.abs(cc))) / tot) if (c['op'] != 'pixel' and tot > 0) else nyq
         msg = arr_close(out, cc.real, extra=bound)
         if msg:
             return ('output differs from the (non-negative) circular convolution with the documented transfer function '
@@ -892,33 +884,11 @@ def oracle_history(c, impl):
     return None
 
 
-def oracle_zero_frame(c, impl):
-    """jitter / smear of the all-zero frame: the property's clauses about totals speak of non-zero images (the code
-    computes 0 * 0 / 0); the shape must be kept and no sample may be negative - an all-zero or an all-NaN frame"""
-    m, n = shape_of(c)
-    if 'err' in impl:
-        return f'{c["op"]} raised {impl["err"]} on the all-zero {m}x{n} frame'
-    for name in ('out', 'again', 'zero', 'samples'):
-        r = impl.get(name)
-        if r is None:
-            continue
-        if isinstance(r, dict):
-            return f'raised {r["err"]} on the all-zero frame ({name})'
-        o = np.asarray(r, dtype=float)
-        if o.shape != (m, n):
-            return f'shape not preserved on the all-zero frame: {o.shape}'
-        if not (np.all(np.isnan(o)) or not np.any(o)):
-            return f'the all-zero frame is blurred into something that is neither all zero nor all NaN ({name})'
-    return None
-
-
 def oracle(c, impl):
     if c['op'] == 'history':
         return oracle_history(c, impl)
     img = get_img(c)
     m, n = img.shape
-    if c['op'] != 'pixel' and not np.any(img):
-        return oracle_zero_frame(c, impl)
     msg = check_out(c, impl)
     if msg:
         return msg
